@@ -9,6 +9,7 @@ from symex import U, render
 class LogicPolicy(symex.Policy):
     loop_limit = 2
     max_paths = 400
+    dedupe = False      # decision tables are read off the path conditions: never merge paths
 
     def inline(self, path, body):
         return path.endswith("CelValue::error_prop_or") or "::{closure" in path
@@ -56,6 +57,7 @@ def classify(preds, who):
 
 class ArmPolicy(symex.Policy):
     max_paths = 3000
+    dedupe = False
 
     def __init__(self, vm, stop):
         self.vm = vm
